@@ -2065,14 +2065,15 @@ Proof.
       exists (GL_resp (pc_id p) (x_resp x) :: ls). cbn [grun]. now rewrite E.
 Qed.
 
-Lemma g_par_sound ST : forall fuel st pre post st',
-  g_par fuel ST st pre post = Some st' -> exists ls, grun ST st ls = Some st'.
+Lemma g_par_sound ST ok : forall fuel st pre post st',
+  g_par fuel ST ok st pre post = Some st' -> (exists ls, grun ST st ls = Some st') /\ ok st' = true.
 Proof.
   induction fuel as [|k IH]; intros st pre post st' H; simpl in H; [discriminate|].
   destruct post as [|p rest].
-  - destruct pre; [|discriminate]. inversion H; subst. exists []. reflexivity.
+  - destruct pre; [|discriminate]. destruct (ok st) eqn:EO; [|discriminate]. inversion H; subst.
+    split; [exists []; reflexivity|assumption].
   - destruct (pstep ST st p) as [[s1 op']|] eqn:E; [|eapply IH; eassumption].
-    destruct (g_par k ST s1 [] _) as [r|] eqn:E2; [|eapply IH; eassumption].
-    inversion H; subst. destruct (pstep_run _ _ _ _ _ E) as [l1 H1]. destruct (IH _ _ _ _ E2) as [l2 H2].
-    exists (l1 ++ l2). rewrite grun_app, H1. exact H2.
+    destruct (g_par k ST ok s1 [] _) as [r|] eqn:E2; [|eapply IH; eassumption].
+    inversion H; subst. destruct (pstep_run _ _ _ _ _ E) as [l1 H1]. destruct (IH _ _ _ _ E2) as [[l2 H2] HO].
+    split; [|exact HO]. exists (l1 ++ l2). rewrite grun_app, H1. exact H2.
 Qed.
